@@ -15,7 +15,7 @@ ASSUMPTIONS = [
     "as the parent's attribute is a variant",
     "row sets are compared; when parent and element are both selected no (parent, element) pair may occur twice",
 ]
-BOUNDS = {"quick": dict(parents="2-3", candidates=3, selections="{e}, {p,e}, {e,p}, {p.k,e}", conditions="none / on e / on p / relating both / or / not"),
+BOUNDS = {"quick": dict(parents="2-3", candidates=3, selections="{e}, {p,e}, {e,p}, {p.k,e}", conditions="none / on e / on p / relating both / or / not; element through an attribute and as direct operand"),
           "thorough": dict(parents=3, candidates=4)}
 LIMITS = {"quick": dict(max_paths=20000, max_wall=120), "thorough": dict(max_paths=300000, max_wall=900)}
 FIDELITY_EVERY = {"quick": 2, "thorough": 2}
@@ -36,6 +36,18 @@ class Elem:
     w: Any = 0
     name: str = ""
 
+    def __gt__(self, other):      # elements that are themselves comparable: `flatten(p.items) > k` compares the ELEMENT
+        return self.w > other
+
+    def __ge__(self, other):
+        return self.w >= other
+
+    def __lt__(self, other):
+        return self.w < other
+
+    def __le__(self, other):
+        return self.w <= other
+
 
 def build_cond(c, p, e):
     k = c[0]
@@ -45,6 +57,10 @@ def build_cond(c, p, e):
         return p.k > c[1]
     if k == "e>p":
         return e.w > p.k
+    if k == "E>":
+        return e > c[1]
+    if k == "E>p":
+        return e > p.k
     if k == "p==e":
         return p.k == e.w
     if k == "and":
@@ -62,8 +78,10 @@ def holds(alg, c, po, eo):
         return alg.cmp("gt", eo.w, c[1])
     if k == "p>":
         return alg.cmp("gt", po.k, c[1])
-    if k == "e>p":
+    if k in ("e>p", "E>p"):
         return alg.cmp("gt", eo.w, po.k)
+    if k == "E>":
+        return alg.cmp("gt", eo.w, c[1])
     if k == "p==e":
         return alg.cmp("eq", po.k, eo.w)
     if k == "and":
@@ -78,7 +96,7 @@ def holds(alg, c, po, eo):
 class C16(Case):
     prop = "C16"
 
-    def run(self, mk):
+    def prepare(self, mk):
         sp = self.spec
         np_, nc = sp.get("parents", 2), sp.get("cands", 3)
         cands = [Elem(w=mk.int("e%d.w" % j), name="e%d" % j) for j in range(nc)]
@@ -90,7 +108,14 @@ class C16(Case):
             else:
                 items = mk.slist("p%d.items" % i, seq)
             parents.append(Par(k=mk.int("p%d.k" % i), items=items, name="p%d" % i))
-        data = dict(parents=parents, cands=cands, rows=None)
+        return dict(parents=parents, cands=cands, rows=None)
+
+    def evaluate(self, data, times=None):
+        """Builds the query afresh and evaluates it `times` times; returns (data with the LAST rows, view)."""
+        sp = self.spec
+        parents, cands = data["parents"], data["cands"]
+        data = dict(data)
+        times = times or (2 if sp.get("twice") else 1)
         try:
             with symbolic_mode():
                 p = let(Par, domain=parents)
@@ -102,9 +127,8 @@ class C16(Case):
                     q = an(entity(sel[0], *conds))
                 else:
                     q = an(set_of(sel, *conds))
-            res = list(q.evaluate())
-            if sp.get("twice"):
-                res = list(q.evaluate())      # the obligations are stated on the RE-evaluation
+            for _ in range(times):
+                res = list(q.evaluate())      # the obligations are stated on the LAST evaluation
         except Exception as ex:
             return data, ["exc", type(ex).__name__, str(ex)[:200]]
         rows = []
@@ -121,6 +145,9 @@ class C16(Case):
             rows.append(row)
         data["rows"] = rows
         return data, [[c if s in ("p", "e") else "*" for s, c in zip(sp["select"], r)] for r in rows]
+
+    def run(self, mk):
+        return self.evaluate(self.prepare(mk))
 
     def _present(self, alg, parent, j, cands):
         it = parent.items
@@ -229,6 +256,13 @@ def shapes(tier, seed):
     for c in (None, ["e>", 1]):
         for sel, form in [(["p", "e"], "set_of"), (["e", "p"], "set_of"), (["e"], "entity")]:
             out.append(dict(parents=2, cands=2, cond=c, select=sel, form=form, repeat=True))
+    # the flattened element itself as operand of a comparison (not an attribute of it)
+    direct = [["E>", 1], ["E>p"], ["and", ["p>", 0], ["E>", 1]], ["or", ["E>", 1], ["p>", 1]], ["not", ["E>", 1]],
+              ["and", ["E>", 0], ["not", ["E>", 2]]]]
+    for c in direct:
+        for sel, form in sels[:4]:
+            out.append(dict(parents=np_, cands=nc, cond=c, select=sel, form=form))
+    conds = conds + direct
     for c in conds[1:]:
         out.append(dict(parents=np_, cands=nc, cond=c, select=["p", "e"], form="set_of", twice=True))
         out.append(dict(parents=np_, cands=nc, cond=c, select=["e"], form="entity", twice=True))
